@@ -582,6 +582,43 @@ pub fn exec_map<const N: usize>(cage: &mut Cage<Map<Key, Val, N>>, op: &Value, c
                 Some(()) => json!(["unit"]),
             }
         }
+        "default" | "with_capacity" => {
+            let c = i(op, "c") as usize;
+            #[allow(deprecated)]
+            let made = if name == "default" { call(ctx, Map::<Key, Val, N>::default) } else { call(ctx, || Map::<Key, Val, N>::with_capacity(c)) };
+            match made {
+                None => json!(["panic"]),
+                Some(nm) => {
+                    if !nm.is_empty() || nm.capacity() != N {
+                        ctx.note("C03,C05", "a newly constructed container is not empty or has the wrong capacity".into());
+                    }
+                    let old = std::mem::replace(&mut cage.m, nm);
+                    let _ = call(ctx, || drop(old));
+                    json!(["unit"])
+                }
+            }
+        }
+        "iter_defaults" => {
+            // the Default iterators yield nothing and report length 0
+            let mut lens: Vec<usize> = vec![];
+            macro_rules! dflt {
+                ($t:ty) => {{
+                    let mut it: $t = Default::default();
+                    let l = it.len();
+                    let extra = if it.next().is_some() { 1 } else { 0 };
+                    lens.push(l + extra);
+                }};
+            }
+            dflt!(micromap::Iter<'_, Key, Val>);
+            dflt!(micromap::IterMut<'_, Key, Val>);
+            dflt!(micromap::Keys<'_, Key, Val>);
+            dflt!(micromap::Values<'_, Key, Val>);
+            dflt!(micromap::ValuesMut<'_, Key, Val>);
+            dflt!(micromap::IntoIter<Key, Val, N>);
+            dflt!(micromap::IntoKeys<Key, Val, N>);
+            dflt!(micromap::IntoValues<Key, Val, N>);
+            json!(["lens", lens])
+        }
         "drain" => {
             let n = i(op, "n") as usize;
             let m = &mut cage.m;
@@ -883,6 +920,19 @@ fn exec_cursor<const N: usize>(cage: &mut Cage<Map<Key, Val, N>>, op: &Value, ct
         }};
     }
     match kind {
+        "iter" if s(op, "via") == "r" => {
+            // IntoIterator for &Map
+            let it = (&cage.m).into_iter();
+            let (ret, it) = episode(ctx, it, op, n, w, "C09", true);
+            borrowing!(@noclone it, ret);
+            ret
+        }
+        "iter_mut" if s(op, "via") == "r" => {
+            let it = (&mut cage.m).into_iter();
+            let (ret, it) = episode(ctx, it, op, n, w, "C09", true);
+            borrowing!(@noclone it, ret);
+            ret
+        }
         "iter" => borrowing!(cage.m.iter(), iter),
         "keys" => borrowing!(cage.m.keys(), keys),
         "values" => borrowing!(cage.m.values(), values),
@@ -1304,6 +1354,19 @@ pub fn exec_set<const N: usize>(cage: &mut Cage<Set<Key, N>>, op: &Value, ctx: &
                 Some(()) => json!(["unit"]),
             }
         }
+        "s_default" => {
+            match call(ctx, Set::<Key, N>::default) {
+                None => json!(["panic"]),
+                Some(nm) => {
+                    if !nm.is_empty() || nm.capacity() != N {
+                        ctx.note("C03,C05", "a newly constructed container is not empty or has the wrong capacity".into());
+                    }
+                    let old = std::mem::replace(&mut cage.m, nm);
+                    let _ = call(ctx, || drop(old));
+                    json!(["unit"])
+                }
+            }
+        }
         "s_drop" => {
             let m = std::mem::take(&mut cage.m);
             match call(ctx, || drop(m)) {
@@ -1327,7 +1390,7 @@ pub fn exec_set<const N: usize>(cage: &mut Cage<Set<Key, N>>, op: &Value, ctx: &
         "s_iter" => {
             let n = i(op, "n") as usize;
             let first: Vec<Value> = cage.m.iter().map(|k| ctx.jk(k)).collect();
-            let it = cage.m.iter();
+            let it = if s(op, "via") == "r" { (&cage.m).into_iter() } else { cage.m.iter() };
             // what the cursor still holds after the n plain steps, read through a clone taken then
             let rem_probe: Vec<Value> = cage.m.iter().skip(n).map(|k| ctx.jk(k)).collect();
             let (mut ret, it) = episode(ctx, NoDebug(it), op, n, NO_WRITE, "C09", false);
